@@ -3,6 +3,13 @@ set_option linter.unusedSimpArgs false
 /-! n-byte big-endian fields: `rdN (beN n v) = v` for `v < 256^n`, lengths, well-formedness. -/
 namespace Exa.Flow
 
+/-- equality of `Except` values is decidable (so that concrete evaluations can be closed by `decide`) -/
+instance instDecEqExcept {ε α : Type} [DecidableEq ε] [DecidableEq α] : DecidableEq (Except ε α)
+  | .ok a, .ok b => if h : a = b then isTrue (by rw [h]) else isFalse (by intro e; cases e; exact h rfl)
+  | .error a, .error b => if h : a = b then isTrue (by rw [h]) else isFalse (by intro e; cases e; exact h rfl)
+  | .ok _, .error _ => isFalse (by intro e; cases e)
+  | .error _, .ok _ => isFalse (by intro e; cases e)
+
 @[simp] theorem beN_length (n v : Nat) : (beN n v).length = n := by
   induction n with
   | zero => rfl
